@@ -28,17 +28,19 @@ ASSUMPTIONS = [
 ]
 WORLD = {"quick": dict(N0=5, D=3, kl=2, Nc=7), "thorough": dict(N0=6, D=4, kl=2, Nc=9)}
 NSH = 64
+SCALE_KS = {"quick": (5, 9, 20), "thorough": (4, 5, 6, 8, 9, 12, 20, 33)}
 LETTERS = "ACGTRYKMSWBDHVNacgtrykmswbdhvn"
 ALPHA = Alphabet.NT_EXTENDED
 
 
 def world_description(tier):
     w = WORLD[tier]
-    return f"hierarchies depth<= {w['D']} over N0={w['N0']} (<= {w['kl']} blocks per level); chunk half: layouts N={w['Nc']} k<=3 x all windows x chunk strands"
+    return f"hierarchies depth<= {w['D']} over N0={w['N0']} (<= {w['kl']} blocks per level); chunk half: layouts N={w['Nc']} k<=3 x all windows x chunk strands; scale family: levels placed by {SCALE_KS[tier]} blocks (+ a second level), leaves and chunk windows on ladders of junction coordinates"
 
 
 def shards(tier, seed):
-    return [{"tier": tier, "part": "hier", "i": i} for i in range(NSH)] + [{"tier": tier, "part": "chunk", "i": i} for i in range(16)]
+    return ([{"tier": tier, "part": "hier", "i": i} for i in range(NSH)] + [{"tier": tier, "part": "chunk", "i": i} for i in range(16)]
+            + [{"tier": tier, "part": "scale", "i": i} for i in range(16)])
 
 
 def level_specs(n_prev, kl):
@@ -89,7 +91,7 @@ def compose(levels, leaf, upto):
 
 
 def check_hier(res, N0, levels, leaf):
-    G0 = LETTERS[:N0]
+    G0 = LETTERS[:N0] if N0 <= len(LETTERS) else (LETTERS * (N0 // len(LETTERS) + 1))[:N0]
     case = dict(kind="hier", N0=N0, levels=[[list(map(list, bl)), s] for bl, s in levels], leaf=[list(map(list, leaf[0])), leaf[1]])
     o = lib.outcome(build, G0, levels, leaf)
     res.trans()
@@ -270,7 +272,7 @@ def check_chunk3(res, N, a, b, bl1, s1, leaf, c_, d_):
     """location -> feature sequence -> chunk A [a,b) -> chromosome, re-lifted onto chunk B [c,d)"""
     from inscripta.biocantor.io.parser import seq_chunk_to_parent
 
-    G = (LETTERS * 2)[:N]
+    G = (LETTERS * (N // len(LETTERS) + 2))[:N]
     parA = seq_chunk_to_parent(G[a:b], "chrV", a, b, alphabet=ALPHA)
     loc_on_A = lib.mk_loc(bl1, s1, parA)
     ftext = F.splice(G[a:b], M.P(bl1, s1), s1)
@@ -324,7 +326,7 @@ def enum_hier(N0, D, kl):
 
 
 def check_chunk(res, N, bl, strand, a, b, cstrand):
-    G = (LETTERS * 2)[:N]
+    G = (LETTERS * (N // len(LETTERS) + 2))[:N]
     chunk_text = F.splice(G, M.P(((a, b),), cstrand), cstrand)
     from inscripta.biocantor.io.parser import seq_chunk_to_parent
 
@@ -405,6 +407,47 @@ def run_shard(shard):
                         continue
                     check_overlap_leaf(res, N0, [lv], (leaf_bl, ls))
         res.sample({"levels": [[[[1, 3], [4, 5]], "-"]], "leaf": [[[0, 2]], "+"], "composed": compose([(((1, 3), (4, 5)), "-")], (((0, 2),), "+"), 0)})
+    elif shard["part"] == "scale":
+        # the scale family (vlib/worlds.py): a level placed on the chromosome by MANY blocks; optionally a second level placed
+        # on it by two blocks; leaves = every single interval with both ends on a ladder of coordinates around the block
+        # junctions of the deepest level, and one many-block leaf; chunk half: many-block locations x ladder windows
+        tier = shard["tier"]
+        idx = 0
+        for k, bl in worlds.scale_layouts(tier, offset=1, ks=SCALE_KS[tier], npat=2 if tier == "quick" else 3):
+            N0 = bl[-1][1] + 1
+            n1 = sum(e - b for b, e in bl)
+            for s1 in "+-":
+                idx += 1
+                if idx % 16 != shard["i"]:
+                    continue
+                second = [None]
+                if n1 >= 6:
+                    second += [(((1, n1 // 2), (n1 // 2 + 1, n1 - 1)), s2) for s2 in "+-"]
+                for lv2 in second:
+                    levels = [(bl, s1)] + ([lv2] if lv2 else [])
+                    if lv2 is None:
+                        pts = worlds.boundary_points(bl, around=1 if k <= 6 else 0)[:: 1 if k <= 9 else 2]
+                        nleaf = n1
+                    else:
+                        nleaf = sum(e - b for b, e in lv2[0])
+                        pts = sorted({0, 1, nleaf // 2 - 1, nleaf // 2, nleaf // 2 + 1, nleaf - 1, nleaf})
+                    for i_, a_ in enumerate(pts):
+                        for b_ in pts[i_ + 1:]:
+                            for ls in "+-":
+                                check_hier(res, N0, levels, (((a_, b_),), ls))
+                    comb = tuple((q, q + 1) for q in range(0, nleaf - 1, 3))
+                    if len(comb) > 1:
+                        for ls in "+-":
+                            check_hier(res, N0, levels, (comb, ls))
+                # chunk half
+                lo, hi = bl[0][0], bl[-1][1]
+                mid = bl[len(bl) // 2]
+                wpts = sorted({0, lo, bl[0][1], mid[0], mid[1], bl[-1][0], hi, N0} & set(range(N0 + 1)))
+                for i_, a_ in enumerate(wpts):
+                    for b_ in wpts[i_ + 1:]:
+                        for cs in "+-":
+                            check_chunk(res, N0, bl, s1, a_, b_, cs)
+        res.sample({"scale": "many-block levels", "ks": list(SCALE_KS[tier])})
     else:
         N = w["Nc"]
         idx = 0
